@@ -578,7 +578,7 @@ def main():
 
     # (4c) wall-clock scenarios (cron.Cron) + crolt wall-clock run + witnesses of the known findings, run side by side
     n_wall = 36 if not ck.thorough else 400
-    wall_cases = gen_c16.wall_directed() + [gen_c16.wall_case(rng, recurring=(k % 4 == 3), thorough=ck.thorough) for k in range(n_wall - 3)]
+    wall_cases = gen_c16.wall_directed() + [gen_c16.wall_case(rng, recurring=(k % 4 == 3), thorough=ck.thorough) for k in range(n_wall - 4)]
     crolt_wall = {"kind": "c16.crolt.wall", "partitions": 2, "ttl_ms": 300, "jitter_ms": 0, "horizon": 3200, "poll_ms": 40,
                   "jobs": [{"acc": "a", "id": "1", "expr": "%dms" % rng.choice([150, 250, 350])}, {"acc": "a", "id": "2", "expr": "500ms"},
                            {"acc": "b", "id": "1", "expr": "%dms" % rng.choice([200, 300])}, {"acc": "r", "id": "1", "expr": "* * * * * * *"}],
